@@ -232,3 +232,49 @@ package vgirpc
 //@   at call writeSchemaOnlyStream assert [rendered] arg0 == schema
 //@   at call (*sync.Map).LoadOrStore assert [storekey] arg1 == iface(schema) && arg2 == iface(msg)
 //@   at call (*sync.Map).LoadOrStore assert [stripped] arr(msg) == arr(full) && off(msg) == off(full) && len(msg) == len(full) - 8
+
+// The table starts, and restarts, empty: initializeHeader (a fresh segment) and Reset leave a
+// count of zero — the empty table is well formed — and initializeHeader writes the data size
+// the attach side validates. Neither can index outside the mapping.
+//
+//@ func (*ShmSegment).initializeHeader
+//@   property C34
+//@   reveal cnt
+//@   requires s != nil && len(s.data) == s.size
+//@   modifies s.data[0:24]
+//@   nopanic(index, slice)
+//@   ensures [empty] result == nil ==> s.size >= 65536 && cnt(s) == 0
+//@   ensures [wf] result == nil ==> wfBounds(s) && wfSorted(s)
+//@   ensures [datasize] result == nil ==> u64at(s.data, 8) == s.size - 65536 && u32at(s.data, 4) == shmVersion
+//@   ensures [toosmall] old(len(s.data)) < 65536 ==> result != nil
+//
+//@ func (*ShmSegment).validateHeader
+//@   property C34
+//@   requires s != nil && len(s.data) == s.size && s.size >= 65536
+//@   nopanic(index, slice)
+//@   modifies nothing
+//@   ensures [datasize] result == nil ==> u64at(s.data, 8) == s.size - 65536 && u32at(s.data, 4) == shmVersion
+//
+//@ func (*ShmSegment).Reset
+//@   property C34
+//@   reveal cnt
+//@   requires segOK(s)
+//@   ensures [local_empty_ret2] cnt(s) == 0 && wfBounds(s) && wfSorted(s)
+
+// The constructors establish what every allocator operation requires of a segment: the mapping
+// is exactly `size` bytes long, the size exceeds the header, and a created segment starts with an
+// empty (hence well-formed) table.
+//
+//@ func shmTryCreate
+//@   property C34
+//@   ensures [mapped] result1 == nil ==> result0 != nil && len(result0.data) == result0.size && result0.size == size
+//
+//@ func ShmCreate
+//@   property C34
+//@   reveal cnt
+//@   ensures [segok] result1 == nil ==> segOK(result0) && result0.size == size
+//@   ensures [emptytable] result1 == nil ==> cnt(result0) == 0 && wfBounds(result0) && wfSorted(result0)
+//
+//@ func ShmAttach
+//@   property C34
+//@   ensures [segok] result1 == nil ==> segOK(result0) && result0.size == size
